@@ -1,5 +1,6 @@
 import KyupyVerif.Proofs.Stil
 import KyupyVerif.Proofs.StilText
+import KyupyVerif.Proofs.StilExtract
 import KyupyVerif.Proofs.MvChk
 import KyupyVerif.Gen.MvTables
 import KyupyVerif.Proofs.StilSim
@@ -22,8 +23,10 @@ nothing here: the model in property mode is compared with the code under test, a
 outputs of bench-style circuits the output fork of a flip-flop (tags `name-clash:*`).
 **Hypotheses.**  `hnd` (the target rows of one call are pairwise different) is evaluated by the driver (`stil hnd`) on every case's
 real parse result (tags `hyp:hnd:*`, together with "interface names pairwise different"); a well-formed generated case outside it
-is a broken tie.  `hp : (extract fl)[i]? = some p` — `Stil.extract` (pattern assembly from the call list, stil.py:28-56) has NO
-theorem of its own: what it guarantees (pattern `i` = the load of the `i`-th `load_unload` that is followed by a capture, the
+is a broken tie.  `hp : (extract fl)[i]? = some p` — `Stil.extract` (pattern assembly from the call list, stil.py:28-56): since the audit
+follow-up the section "pattern assembly" at the end proves what it yields on call lists of the shape ATPG tools (and the generator)
+write — `extract_blocks`, `extract_count`, `extract_pattern`; for ARBITRARY call lists (a `load_unload` without capture, two captures
+in a row, calls of other names) it has no theorem: what it guarantees there (pattern `i` = the load of the `i`-th `load_unload` that is followed by a capture, the
 launch / capture parameters of the calls between it and the next `load_unload`, the unload of that next `load_unload`; strings
 with `\n` removed and `N` → `-`) is tied to `StilFile.__init__` by exact correspondence only (driver `stil pats` == `s.patterns`
 on every case) and checked against the generator's pattern list by the oracle.
@@ -827,5 +830,46 @@ example : parseStil ("STIL 1.0 { Design 2005; }\nHeader { Title \"x\"; History {
 example : parseStil "STIL 1.0; Pattern \"p\" { }" = none ∧ (parseTree "STIL 1.0; Pattern \"p\" { }".toList).isSome = true := by
   decide +kernel
 end text
+
+/-! ## pattern assembly (`StilFile.__init__`, stil.py:28-56)
+A call list of the shape `load_unload+, [x_launch,] y_capture, load_unload+, [..,] .., load_unload` (`Stil.callsOf bs fin`; a block `Blk` =
+any number of `load_unload` calls that no capture follows (`pre`), its own `load_unload`, optional launch call, capture call with at
+least one parameter). -/
+section extract
+open KV.Stil
+
+/-- **pattern assembly**: the pattern list is `expectPats` — for every block list, closing call, chain list (scan port names) -/
+theorem extract_blocks (groups : List (String × List String)) (chains : List Chain) (bs : List Blk) (fin : Dict)
+    (hb : ∀ b ∈ bs, b.ok = true) :
+    extract ⟨groups, chains, callsOf bs fin⟩ = expectPats (chains.map (·.si)) (chains.map (·.so)) bs fin :=
+  Stil.extract_blocks groups chains bs fin hb
+
+/-- one pattern per block: the closing `load_unload` opens no pattern, nothing is dropped or doubled -/
+theorem extract_count (groups : List (String × List String)) (chains : List Chain) (bs : List Blk) (fin : Dict)
+    (hb : ∀ b ∈ bs, b.ok = true) : (extract ⟨groups, chains, callsOf bs fin⟩).length = bs.length := by
+  rw [extract_blocks groups chains bs fin hb, expectPats_length]
+
+/-- **pattern `k`** = the scan-in strings of block `k`'s `load_unload` (scan-in ports only, in chain order), the cleaned launch
+    parameters of block `k` (EMPTY when the block has no launch call — not the previous block's), the cleaned capture parameters of
+    block `k`, and the scan-out strings of the NEXT `load_unload` call in the list: the first one of block `k + 1` (a discarded
+    `load_unload` in front of that block if there is one — its load is lost, its unload is not), for the last block the closing call -/
+theorem extract_pattern (groups : List (String × List String)) (chains : List Chain) (bs : List Blk) (fin : Dict)
+    (hb : ∀ b ∈ bs, b.ok = true) (k : Nat) (hk : k < bs.length) :
+    (extract ⟨groups, chains, callsOf bs fin⟩)[k]? =
+      some ⟨pick (chains.map (·.si)) bs[k].lu, bs[k].launch, cleanDict bs[k].ca,
+            pick (chains.map (·.so)) (if h : k + 1 < bs.length then bs[k + 1].unloadSrc else fin)⟩ := by
+  rw [extract_blocks groups chains bs fin hb, List.getElem?_eq_getElem (by rw [expectPats_length]; exact hk),
+    expectPats_get _ _ bs fin k hk]
+
+/-- non-vacuity: two blocks (the second without launch call and behind a discarded `load_unload`), one chain; `N` → `-`, line break removed, the unload of pattern 0
+    comes from the discarded `load_unload`, the load of pattern 1 from the one after it, the launch of pattern 1 is empty -/
+example :
+    let bs : List Blk := [⟨[], [("si0", "01".toList), ("so0", "LL".toList)], some ("ck_launch", [("_pi", "0P".toList)]), "ck_capture", [("_po", "LH".toList)]⟩,
+                          ⟨[[("si0", "00".toList), ("so0", "H\nL".toList)]], [("si0", "1N".toList), ("so0", "LL".toList)], none, "x_capture", [("_pi", "11".toList)]⟩]
+    (∀ b ∈ bs, b.ok = true) ∧
+    extract ⟨[], [⟨"si0", ["a", "b"], "so0"⟩], callsOf bs [("so0", "XX".toList)]⟩ =
+      [⟨[("si0", "01".toList)], [("_pi", "0P".toList)], [("_po", "LH".toList)], [("so0", "HL".toList)]⟩,
+       ⟨[("si0", "1-".toList)], [], [("_pi", "11".toList)], [("so0", "XX".toList)]⟩] := by decide +kernel
+end extract
 
 end KV.C18
